@@ -94,6 +94,8 @@ struct View {
     emb_dim: usize,
     embeddings: BTreeMap<u64, Vec<u32>>,
     tables: BTreeMap<String, (String, Vec<(u64, String)>)>,
+    /// per table: row count, get() of the first row ids (deleted ones included), index lookups / ranges
+    rel_extra: BTreeMap<String, String>,
     blobs: BTreeMap<u64, Option<Vec<u8>>>,
     blob_counts: (u64, u64),
     graph: BTreeMap<u64, Vec<(u64, u64)>>,
@@ -140,6 +142,20 @@ fn view(r: &SlabRouter, side: &Side) -> View {
             .map(|(id, row)| (id.as_u64(), row.iter().map(enc_colval).collect::<Vec<_>>().join(",")))
             .collect();
         rows.sort();
+        let max_id = rows.iter().map(|x| x.0).max().unwrap_or(0);
+        let probes: Vec<String> = (0..max_id + 3)
+            .map(|i| match r.relations.get(&t, tensor_store::RowId::new(i)) {
+                Ok(Some(row)) => row.iter().map(enc_colval).collect::<Vec<_>>().join(","),
+                Ok(None) => "none".into(),
+                Err(_) => "err".into(),
+            })
+            .collect();
+        let look: Vec<String> = [i64::MIN, -1, 0, 1, 2, 3, 7]
+            .iter()
+            .map(|k| format!("{k}:{:?}", r.relations.index_lookup(&t, "id", *k).map(|v| v.iter().map(|x| x.as_u64()).collect::<Vec<_>>()).unwrap_or_default()))
+            .collect();
+        let range = format!("{:?}", r.relations.index_range(&t, "id", tensor_store::RangeOp::Ge, 2).map(|v| v.iter().map(|x| x.as_u64()).collect::<Vec<_>>()).unwrap_or_default());
+        v.rel_extra.insert(t.clone(), format!("count={:?};get={};lookup={};range_ge2={range}", r.relations.row_count(&t).ok(), probes.join("|"), look.join("|")));
         v.tables.insert(t, (schema, rows));
     }
     for h in &side.blob_hashes {
@@ -938,6 +954,46 @@ fn build_store(seed: u64, n: usize, engines: bool) -> Built {
         ed.set("weight", TensorValue::Scalar(ScalarValue::Float(0.5)));
         rt.graph.set_edge_data(e, ed);
         side.graph_nodes = vec![1, 2, 3];
+        // a table with a history, straight on the relational slab: deleted rows (alive bitmap), an updated
+        // row, an index created before and after inserts, an added and a dropped column, a dropped table
+        {
+            use tensor_store::{ColumnDef, ColumnType as CT, ColumnValue as CV, RowId, TableSchema};
+            let rel = &rt.relations;
+            let schema = TableSchema::new(vec![
+                ColumnDef::new("id", CT::Int, false),
+                ColumnDef::new("name", CT::String, true),
+                ColumnDef::new("score", CT::Float, true),
+                ColumnDef::new("ok", CT::Bool, true),
+                ColumnDef::new("raw", CT::Bytes, true),
+                ColumnDef::new("doc", CT::Json, true),
+            ])
+            .with_primary_key("id");
+            let _ = rel.create_table("history_t", schema);
+            let _ = rel.create_index("history_t", "id");
+            let n = 4 + r.below(8) as i64;
+            for i in 0..n {
+                let _ = rel.insert(
+                    "history_t",
+                    vec![
+                        CV::Int(if i == 0 { i64::MIN } else { i % 4 }),
+                        if i % 3 == 0 { CV::Null } else { CV::String(gen_string(&mut r).chars().take(40).collect()) },
+                        CV::Float(*r.pick(&[f64::NAN, -0.0, 2.5, f64::NEG_INFINITY])),
+                        if i % 2 == 0 { CV::Bool(true) } else { CV::Null },
+                        CV::Bytes(r.bytes(i as usize % 4)),
+                        if i % 5 == 0 { CV::Null } else { CV::Json(format!("{{\"i\":{i}}}")) },
+                    ],
+                );
+            }
+            let _ = rel.delete("history_t", RowId::new(1));
+            let _ = rel.delete("history_t", RowId::new(n as u64 - 1));
+            let _ = rel.update_row("history_t", RowId::new(2), &[("name".to_string(), CV::Null), ("id".to_string(), CV::Int(7))]);
+            let _ = rel.add_column("history_t", ColumnDef::new("extra", CT::Int, true), Some(&CV::Int(9)));
+            let _ = rel.drop_column("history_t", "ok");
+            let _ = rel.insert("history_t", vec![CV::Int(3), CV::String("late".into()), CV::Float(1.0), CV::Bytes(vec![]), CV::Null, CV::Null]);
+            let _ = rel.create_table("dropped_t", TableSchema::new(vec![ColumnDef::new("x", CT::Int, false)]));
+            let _ = rel.insert("dropped_t", vec![CV::Int(1)]);
+            let _ = rel.drop_table("dropped_t");
+        }
         desc["tables"] = json!(rt.relations.table_names());
     }
     Built { store, side, desc }
@@ -1014,6 +1070,8 @@ fn diff_views(a: &View, b: &View) -> Vec<(String, J)> {
         }
     }
     if let Some(d) = first_diff(&a.tables, &b.tables) {
+        out.push(("relational_slab_not_restored".into(), d));
+    } else if let Some(d) = first_diff(&a.rel_extra, &b.rel_extra) {
         out.push(("relational_slab_not_restored".into(), d));
     }
     if a.blobs != b.blobs || a.blob_counts != b.blob_counts {
@@ -3042,7 +3100,7 @@ fn stream_router(rep: &mut Report, m: &mut Model, root: &Rng, thorough: bool, sc
         "router.put.emb.readd_after_delete", "router.put.emb.overwrite", "router.put.cache.evicts", "router.put.cache.update_in_place", "router.delete.emb", "router.delete.cache",
         "router.delete.notfound", "router.graph.auto_merge", "router.graph.delete_edge", "router.graph.delete_then_snapshot", "router.graph.out_of_order_sources",
         "router.blob.sealed_segment", "router.blob.duplicate_append", "router.blob.garbage_then_snapshot", "router.snapshot.bytes", "router.snapshot.file_plain", "router.snapshot.file_zstd",
-        "router.snapshot.then_more_ops", "router.snapshot.loaded_router_adopted",
+        "router.snapshot.then_more_ops", "router.snapshot.loaded_router_adopted", "router.cache.evict",
     ] {
         rep.expected_branches.push(b.to_string());
     }
@@ -3094,7 +3152,8 @@ fn stream_router(rep: &mut Report, m: &mut Model, root: &Rng, thorough: bool, sc
                     59..=61 => 4,
                     62..=66 => 9,
                     67 => 5,
-                    68..=79 => 20,
+                    68 => 6,
+                    69..=79 => 20,
                     80..=83 => 21,
                     84 => 22,
                     85..=87 => 23,
@@ -3177,6 +3236,17 @@ fn stream_router(rep: &mut Report, m: &mut Model, root: &Rng, thorough: bool, sc
                     c.hashes.clear();
                     rep.hit("router.clear");
                     c.ask(rep, m, "router.ops", "rt_clear 0", "ok", ident);
+                }
+                6 => {
+                    // evict_cache: which entries go depends on scores (wall clock); the vanished keys are told to the model
+                    let before = c.rt.cache.scan_prefix("");
+                    let n = c.rt.evict_cache(1 + r.below(2) as usize);
+                    let after = c.rt.cache.scan_prefix("");
+                    let gone: Vec<String> = before.iter().filter(|k| !after.contains(k)).map(|k| hexs(k)).collect();
+                    if n > 0 {
+                        rep.hit("router.cache.evict");
+                    }
+                    c.ask(rep, m, "router.ops", &format!("rt_evict 0 {}", join_or(",", &gone)), "ok", ident);
                 }
                 20 => {
                     // graph: add_edge
@@ -3292,6 +3362,171 @@ fn stream_router(rep: &mut Report, m: &mut Model, root: &Rng, thorough: bool, sc
     }
 }
 
+// ------------------------------------------------------------------ stream: the store-level loops (restore_from_bytes, quantising save/load, v2 loader)
+
+fn real_kv(rt: &SlabRouter) -> String {
+    let mut keys = rt.scan("");
+    keys.sort();
+    let v: Vec<String> = keys.iter().map(|k| format!("{}~{}", hexs(k), rt.get(k).map_or("notfound".to_string(), |d| enc_data_m(&d)))).collect();
+    canon_entries(&join_or("&", &v), true)
+}
+
+fn canon_kv(s: &str) -> String {
+    canon_entries(s, true)
+}
+
+/// keys of every class; embeddings are 384-dim mostly-zero vectors (sparse snapshot form: exact), vectors
+/// of another length (metadata only), or absent
+fn gen_loop_entry(r: &mut Rng, rep: &mut Report, i: usize) -> (String, TensorData) {
+    let key = match r.below(10) {
+        0..=2 => format!("emb:{}", i % 5),
+        3 => format!("_cache:{}", i % 4),
+        4 => format!("node:{}", i % 3),
+        5 => format!("table:t{}:row:{}", i % 2, i),
+        6 => "ключ:✓".to_string(),
+        _ => format!("user:{}", i % 6),
+    };
+    let mut d = TensorData::new();
+    for _ in 0..r.below(3) {
+        let f = *r.pick(&["a", "b", "vector", "ids", "member_ids", "", "поле"]);
+        d.set(f, gen_small_value(r));
+    }
+    if key.starts_with("emb:") {
+        match r.below(6) {
+            0 => rep.hit("store_loops.emb.none"),
+            1 => {
+                rep.hit("store_loops.emb.short");
+                d.set("_embedding", TensorValue::Vector(gen_vec_kind(r, 5, 0)));
+            }
+            _ => {
+                rep.hit("store_loops.emb.slab_dimension");
+                d.set("_embedding", TensorValue::Vector(gen_vec_kind(r, 384, 2)));
+            }
+        }
+    }
+    (key, d)
+}
+
+fn stream_store_loops(rep: &mut Report, m: &mut Model, root: &Rng, thorough: bool, sc: &mut Scratch) {
+    let mut r = root.fork("store_loops");
+    let mut seen = Seen(BTreeMap::new());
+    let n_cases = if thorough { 120 } else { 14 };
+    for case_no in 0..n_cases {
+        let store = TensorStore::new();
+        let mut trace: Vec<String> = vec!["rt_new 384 10000 10000 67108864".to_string()];
+        let mut live = true;
+        let ans = m.ask(&trace[0]);
+        live &= rep.compare("store_loops.ops", || json!({"line": trace[0]}), "ok", &ans);
+        let n_ops = if case_no == 0 { 0 } else { 1 + r.below(if thorough { 60 } else { 25 }) };
+        for i in 0..n_ops as usize {
+            let (key, d) = gen_loop_entry(&mut r, rep, i);
+            let (line, imp) = if r.chance(1, 6) {
+                let res = store.delete(&key);
+                (format!("rt_del 0 {}", hexs(&key)), if res.is_ok() { "ok" } else { "notfound" })
+            } else {
+                let _ = store.put(&key, d.clone());
+                (format!("rt_put 0 {} {} 0", hexs(&key), enc_data_m(&d)), "ok")
+            };
+            trace.push(line.clone());
+            if live {
+                let ans = m.ask(&line);
+                live &= rep.compare("store_loops.ops", || json!({"ops": trace}), imp, &ans);
+            }
+        }
+        let kv = real_kv(store.router());
+        if live {
+            let ans = canon_kv(&m.ask("rt_kv 0"));
+            live &= rep.compare("store_loops.state", || json!({"ops": trace}), &kv, &ans);
+        }
+        let input = |what: &str| json!({"loop": what, "ops": trace.iter().take(80).collect::<Vec<_>>()});
+        // --- restore_from_bytes into a store that already holds something
+        match store.snapshot_bytes() {
+            Err(e) => seen.violation(rep, "tensor_store.snapshot_bytes/failed", &e.to_string(), input("restore_from_bytes")),
+            Ok(bytes) => {
+                let target = TensorStore::new();
+                let mut junk = TensorData::new();
+                junk.set("old", TensorValue::Scalar(ScalarValue::Int(1)));
+                let _ = target.put("user:0", junk.clone());
+                let _ = target.put("emb:0", junk.clone());
+                let _ = target.put("stale:key", junk.clone());
+                if live {
+                    m.ask("rt_clear 1");
+                    for k in ["user:0", "emb:0", "stale:key"] {
+                        m.ask(&format!("rt_put 1 {} {} 0", hexs(k), enc_data_m(&junk)));
+                    }
+                }
+                match target.restore_from_bytes(&bytes) {
+                    Err(e) => seen.violation(rep, "tensor_store.restore_from_bytes/failed", &e.to_string(), input("restore_from_bytes")),
+                    Ok(()) => {
+                        let got = real_kv(target.router());
+                        rep.hit("store_loops.restore_from_bytes");
+                        if got != kv {
+                            seen.violation(rep, "tensor_store.restore_from_bytes/key_content_not_restored", "scan + get of the restored store differ from the saved store (key-addressed content)", json!({"case": input("restore_from_bytes"), "saved": kv.chars().take(1200).collect::<String>(), "restored": got.chars().take(1200).collect::<String>()}));
+                        }
+                        if live {
+                            m.ask("rt_rfb 1");
+                            let ans = canon_kv(&m.ask("rt_kv 1"));
+                            live &= rep.compare("store_loops.restore_from_bytes", || input("restore_from_bytes"), &got, &ans);
+                        }
+                    }
+                }
+            }
+        }
+        // --- the quantising format (no tensor-train configured): every key-addressed entry
+        for delta in [true, false] {
+            let p = sc.fresh("loops.q");
+            match store.save_snapshot_compressed(&p, qconfig(None, delta)).map_err(|e| e.to_string()).and_then(|()| TensorStore::load_snapshot_compressed(&p).map_err(|e| e.to_string())) {
+                Err(e) => seen.violation(rep, "tensor_store.snapshot.compressed/save_or_load_failed", &e, input("quantising")),
+                Ok(l) => {
+                    let got = real_kv(l.router());
+                    rep.hit("store_loops.quantising");
+                    if got != kv {
+                        seen.violation(rep, "tensor_store.snapshot.compressed/key_content_not_restored", "scan + get of the store loaded from the quantising format differ from the saved store", json!({"case": input("quantising"), "delta": delta, "saved": kv.chars().take(1200).collect::<String>(), "loaded": got.chars().take(1200).collect::<String>()}));
+                    }
+                    if live {
+                        m.ask(&format!("rt_quant 0 {}", u8::from(delta)));
+                        let ans = canon_kv(&m.ask("rt_kv 1"));
+                        live &= rep.compare("store_loops.quantising", || input("quantising"), &got, &ans);
+                    }
+                }
+            }
+        }
+        // --- the legacy v2 file: a key -> value map, put key by key by the loader
+        let mut map: HashMap<String, TensorData> = HashMap::new();
+        for i in 0..(if case_no == 0 { 0 } else { 1 + r.below(20) as usize }) {
+            let (key, d) = gen_loop_entry(&mut r, rep, i);
+            map.insert(key, d);
+        }
+        let p = sc.fresh("legacy.v2");
+        let v2bytes = bitcode::serialize(&map).expect("bitcode");
+        std::fs::write(&p, &v2bytes).unwrap();
+        if v2bytes.len() >= 4 && &v2bytes[..4] == b"NEUM" {
+            rep.hit("store_loops.v2.looks_like_v3");
+        } else {
+            match snapshot::load(&p) {
+                Err(e) => seen.violation(rep, "tensor_store.snapshot.load_v2/load_failed", &fmt_err(&e), json!({"entries": map.len()})),
+                Ok(l) => {
+                    rep.hit("store_loops.v2");
+                    let got = real_kv(&l);
+                    let mut es: Vec<(String, String)> = map.iter().map(|(k, d)| (hexs(k), enc_data_m(d))).collect();
+                    es.sort();
+                    let want = canon_entries(&join_or("&", &es.iter().map(|(k, d)| format!("{k}~{d}")).collect::<Vec<_>>()), true);
+                    if got != want {
+                        seen.violation(rep, "tensor_store.snapshot.load_v2/key_content_not_restored", "scan + get of a store loaded from a v2 file differ from the file's map", json!({"map": want.chars().take(1200).collect::<String>(), "loaded": got.chars().take(1200).collect::<String>()}));
+                    }
+                    if live {
+                        let line = format!("rt_loadv2 {}", join_or("&", &es.iter().map(|(k, d)| format!("{k}~{d}")).collect::<Vec<_>>()));
+                        m.ask(&line);
+                        let ans = canon_kv(&m.ask("rt_kv 1"));
+                        let _ = rep.compare("store_loops.v2", || json!({"line": line.chars().take(1500).collect::<String>()}), &got, &ans);
+                    }
+                }
+            }
+        }
+        rep.case("store_loops", Some(&format!("{case_no}|{}", fnv(&trace.join(";")))));
+    }
+}
+
 // ------------------------------------------------------------------ main
 
 fn main() {
@@ -3318,6 +3553,9 @@ fn main() {
     }
     if on("router") {
         stream_router(&mut rep, &mut m, &root, args.thorough, &mut sc);
+    }
+    if on("store_loops") {
+        stream_store_loops(&mut rep, &mut m, &root, args.thorough, &mut sc);
     }
     if on("names") {
         stream_names(&mut rep, &mut m, &root, scale);
